@@ -6,7 +6,8 @@
     Atoms.angle                                     (atoms/atoms.py)   -> `angleCos`, `angleModel`
     Atoms.torsion_angle                             (atoms/atoms.py)   -> `directionCode`, `torsionCos`, `torsionModel`
     OrthogonalMatrix.m * Array (Atom.parse_line)    (misc/dsrmath.py)  -> `cart`
-    Atoms.distance -> atomic_distance(no cell)      (atoms/atoms.py)   -> `namedDistance`
+    misc.frac_to_cart (Atom.set_atom_parameters: add_atom, grown atoms) (misc/misc.py) -> `cartAstar`, `cartVia`
+    Atoms.distance -> atomic_distance(no cell)      (atoms/atoms.py)   -> `namedDistance`, `distanceVia`
     atomic_distance(cell)                           (misc/dsrmath.py)  -> `metricRadicand`, `metricDist`
     Atom.find_atoms_around                          (atoms/atom.py)    -> `findAround`
   `sqrt`, `acos`, `degrees`, `round(., 9)`, `atan2` are parameters (`Trans K`); the trigonometric values of
@@ -119,6 +120,8 @@ structure Cell (K : Type) where
   ca : K
   cb : K
   cg : K
+  /-- `sin β` (only `misc.frac_to_cart` uses it) -/
+  sb : K
   sg : K
   v : K
 
@@ -130,6 +133,24 @@ def cart (C : Cell K) (f : V3 K) : V3 K :=
    0 + f.x * 0 + f.y * (C.b * C.sg) + f.z * (C.c * (C.ca - C.cb * C.cg) / C.sg),
    0 + f.x * 0 + f.y * 0 + f.z * (C.v / (C.a * C.b * C.sg))⟩
 
+/-- `misc.frac_to_cart`, the second fractional → Cartesian route of the library (`Atom.set_atom_parameters`, i.e.
+    atoms made by `Shelxfile.add_atom()` and the symmetry-generated atoms of `grow()`):
+    `cosastar = (cos β cos γ − cos α) / (sin β sin γ)`, `sinastar = sqrt(1 − cosastar ** 2)`,
+    `xc = a x + (b cos γ) y + (c cos β) z`, `yc = 0 + (b sin γ) y + (−c sin β cosastar) z`,
+    `zc = 0 + 0 + (c sin β sinastar) z` -/
+def cartAstar (T : Trans K) (C : Cell K) (f : V3 K) : V3 K :=
+  let cosastar := (C.cb * C.cg - C.ca) / (C.sb * C.sg)
+  let sinastar := T.sqrt (1 - cosastar * cosastar)
+  ⟨C.a * f.x + (C.b * C.cg) * f.y + (C.c * C.cb) * f.z,
+   0 + (C.b * C.sg) * f.y + (-C.c * C.sb * cosastar) * f.z,
+   0 + 0 + (C.c * C.sb * sinastar) * f.z⟩
+
+/-- the Cartesian coordinates an atom carries, by the way it entered the model: parsed from the file text or moved
+    with the `frac_coords` setter (`added = false`: orthogonal matrix), or made by `set_atom_parameters`
+    (`added = true`: `misc.frac_to_cart`) -/
+def cartVia (T : Trans K) (C : Cell K) (added : Bool) (f : V3 K) : V3 K :=
+  if added then cartAstar T C f else cart C f
+
 /-- `atomic_distance(p1, p2)` without a cell: `sqrt(dx ** 2 + dy ** 2 + dz ** 2)` -/
 def euclid (T : Trans K) (p q : V3 K) : K :=
   let d := p.sub q
@@ -137,6 +158,10 @@ def euclid (T : Trans K) (p q : V3 K) : K :=
 
 /-- `Atoms.distance`: `atomic_distance` of the two atoms' stored Cartesian coordinates -/
 def namedDistance (T : Trans K) (C : Cell K) (f1 f2 : V3 K) : K := euclid T (cart C f1) (cart C f2)
+
+/-- `Atoms.distance` of two atoms that entered the model in the given ways -/
+def distanceVia (T : Trans K) (C : Cell K) (r1 r2 : Bool) (f1 f2 : V3 K) : K :=
+  euclid T (cartVia T C r1 f1) (cartVia T C r2 f2)
 
 /-- the radicand of `atomic_distance(p1, p2, cell)`:
     `(a dx)**2 + (b dy)**2 + (c dz)**2 + 2 b c cos(al) dy dz + 2 dx dz a c cos(be) + 2 dx dy a b cos(ga)` -/
